@@ -125,4 +125,15 @@ CHECKS = {
         runs=[dict(engine="wsfault", test="TestC13", quick=dict(checks=60, shards=4, timeout=600, may_stop_early=False),
                    thorough=dict(checks=3000, shards=16, timeout=3000))],
     ),
+    "C16": dict(
+        level="exploration",
+        rule=("rapid-generated service configurations (brand/model/type/serial/identifier/SKI from any valid UTF-8, lengths around the 32-byte "
+              "boundary with multi-byte runes straddling it, characters = ; : , and blanks; category lists nil/empty/1-7/out of range; both "
+              "auto-accept values; ports). Oracles: announced TXT values are <= 32 bytes, prefixes of the input and valid UTF-8; the TXT "
+              "pushed through the real Avahi provider path (fake daemon -> parseTxt -> entry processing) of a second manager yields an "
+              "entry with equal fields; QRCodeText() parsed by an independent reference parser yields exactly the expected fields. "
+              "non-trivial = some field > 32 bytes or containing a separator character; distinct = hash of the configuration"),
+        runs=[dict(engine="mdnssim", test="TestC16", quick=dict(checks=20000, shards=4, timeout=600),
+                   thorough=dict(checks=800000, shards=16, timeout=3000))],
+    ),
 }
